@@ -17,10 +17,14 @@ from .core import Engine
 
 GATE_TIMEOUT = 8.0
 STALL_TIMEOUT = 1.5
+HANG_TIMEOUT = 4.0
 
 
 class Boom(Exception):
     pass
+
+
+EXC = {'Boom': Boom, 'StopIteration': StopIteration, 'RuntimeError': RuntimeError, 'NotImplementedError': NotImplementedError, 'KeyError': KeyError}
 
 
 def ref_chunks(xs, cs):
@@ -184,9 +188,17 @@ class PmapEngine(Engine):
                'total': r.choice([None, None, n]),
                'order': [r.randrange(6) for _ in range(n + 2)],
                # a second, ungated call of the other implementation in the same thread afterwards (event-loop hygiene between calls)
-               'then': r.choice([None, None, 'iter', 'threading']) }
+               'then': r.choice([None, None, 'iter', 'threading']),
+               'exc': r.choice(['Boom', 'Boom', 'StopIteration', 'RuntimeError', 'NotImplementedError', 'KeyError'])}
         if r.random() < 0.25:
             scn['order'] = [5] * (n + 2)    # always the newest in flight: later elements finish first
+        if profile == 'pmapzone':
+            # known finding F13: StopIteration raised by f in a worker thread cannot be carried by an asyncio future
+            scn.update(threads=max(2, threads), n=max(1, n), exc='StopIteration', then=None)
+            scn['raise_at'] = r.randrange(scn['n'])
+            scn['order'] = [r.randrange(6) for _ in range(scn['n'] + 2)]
+        elif scn['exc'] == 'StopIteration' and scn['threads'] > 1:
+            scn['exc'] = 'Boom'
         return scn
 
     def size(self, scn):
@@ -222,58 +234,63 @@ class PmapEngine(Engine):
         def f(x):
             ctl.enter(x)
             if scn.get('raise_at') is not None and x == scn['raise_at']:
-                raise Boom(f'boom {x}')
+                raise EXC[scn.get('exc', 'Boom')](f'boom {x}')
             return out(x)
 
         inp = make_input(scn['input'], xs)
-        loop = asyncio.new_event_loop()
-        asyncio.set_event_loop(loop)
-        orig_csts = loop.call_soon_threadsafe
-
-        def counting_csts(cb, *args, **kw):
-            with ctl.cv:
-                ctl.notified += 1
-                ctl.cv.notify_all()
-            return orig_csts(cb, *args, **kw)
-        loop.call_soon_threadsafe = counting_csts
-        th = threading.Thread(target=ctl.run, daemon=True)
-        th.start()
         res = {'result': None, 'error': None}
-        t0 = time.time()
-        try:
-            if impl == 'threading':
-                kw = dict(threads=T, sort=scn['sort'], use_tqdm=scn['bar'], chunksize=cs)
-                if scn.get('total') is not None:
-                    kw['total'] = scn['total']
-                r = ctx['tct'].parallel_map(f, inp, **kw)
-            elif impl == 'starmap':
-                inp2 = make_input(scn['input'] if scn['input'] not in ('range', 'dictkeys') else 'list', [(x, x + 1) for x in xs])
-                r = ctx['tct'].parallel_starmap(lambda a, b: f(a), inp2, threads=T, sort=scn['sort'], use_tqdm=scn['bar'], chunksize=cs)
-            else:
-                r = ctx['tci'].parallel_map(f, inp, threads=T)
-            res['result'] = _canon(r)
-            if scn.get('then'):
-                try:
-                    xs2 = [10, 11, 12]
-                    if scn['then'] == 'iter':
-                        r2 = ctx['tci'].parallel_map(lambda x: x + 1, xs2, threads=2)
-                    else:
-                        r2 = ctx['tct'].parallel_map(lambda x: x + 1, xs2, threads=2, use_tqdm=False, chunksize=2)
-                    res['then'] = _canon(r2)
-                except Exception as e:
-                    res['then'] = ['error', type(e).__name__, str(e)[:120]]
-        except Boom as e:
-            res['error'] = ['Boom', str(e)]
-        except Exception as e:
-            res['error'] = [type(e).__name__, str(e)[:200]]
-        finally:
-            ctl.finish()
-            th.join(GATE_TIMEOUT + 5)
+        th = threading.Thread(target=ctl.run, daemon=True)
+
+        def call():
+            loop = asyncio.new_event_loop()
+            asyncio.set_event_loop(loop)
+            orig_csts = loop.call_soon_threadsafe
+
+            def counting_csts(cb, *args, **kw):
+                with ctl.cv:
+                    ctl.notified += 1
+                    ctl.cv.notify_all()
+                return orig_csts(cb, *args, **kw)
+            loop.call_soon_threadsafe = counting_csts
             try:
-                loop.close()
-            except Exception:
-                pass
-            asyncio.set_event_loop(None)
+                if impl == 'threading':
+                    kw = dict(threads=T, sort=scn['sort'], use_tqdm=scn['bar'], chunksize=cs)
+                    if scn.get('total') is not None:
+                        kw['total'] = scn['total']
+                    r = ctx['tct'].parallel_map(f, inp, **kw)
+                elif impl == 'starmap':
+                    inp2 = make_input(scn['input'] if scn['input'] not in ('range', 'dictkeys') else 'list', [(x, x + 1) for x in xs])
+                    r = ctx['tct'].parallel_starmap(lambda a, b: f(a), inp2, threads=T, sort=scn['sort'], use_tqdm=scn['bar'], chunksize=cs)
+                else:
+                    r = ctx['tci'].parallel_map(f, inp, threads=T)
+                res['result'] = _canon(r)
+                if scn.get('then'):
+                    res['then'] = second_call()
+            except Exception as e:
+                res['error'] = [type(e).__name__, str(e)[:200]]
+                if scn.get('then') and scn.get('raise_at') is not None:
+                    res['then'] = second_call()
+            finally:
+                res['returned'] = True
+
+        def second_call():
+            # a later, ungated call of an implementation in the same thread (event-loop / executor hygiene between calls)
+            try:
+                if scn['then'] == 'iter':
+                    return _canon(ctx['tci'].parallel_map(lambda x: x + 1, [10, 11, 12], threads=max(2, T)))
+                return _canon(ctx['tct'].parallel_map(lambda x: x + 1, [10, 11, 12], threads=max(2, T), use_tqdm=False, chunksize=2))
+            except Exception as e2:
+                return ['error', type(e2).__name__, str(e2)[:120]]
+
+        runner = threading.Thread(target=call, daemon=True)
+        th.start()
+        runner.start()
+        runner.join(HANG_TIMEOUT if scn.get('exc') == 'StopIteration' and T > 1 else 60)
+        if runner.is_alive():
+            res['error'] = ['HANG', 'parallel_map did not return']
+            res['returned'] = False
+        ctl.finish()
+        th.join(GATE_TIMEOUT + 5)
         res.update(released=ctl.released, arrivals=ctl.arrivals, calls={str(k): v for k, v in sorted(ctl.calls.items())},
                    deviations=ctl.deviations[:5], gate_timeouts=ctl.gate_timeouts, choices=ctl.used_choices,
                    controller_alive=th.is_alive())
@@ -300,6 +317,13 @@ class PmapEngine(Engine):
         cs = scn['chunksize'] if impl != 'iter' else max(n, 1)
         raise_at = scn.get('raise_at')
         calls = {int(k): v for k, v in obs['calls'].items()}
+        if obs.get('error') and obs['error'][0] == 'HANG':
+            zone = 'stopiteration_in_worker_thread' if scn.get('exc') == 'StopIteration' and T > 1 and raise_at is not None else None
+            discs.append({'prop': 'C17', 'inv': 'I-returns', 'op': None, 'zone': zone,
+                          'msg': 'parallel_map never returned (the exception raised by f was neither propagated nor anything else returned)',
+                          'detail': {'exc': scn.get('exc'), 'threads': T, 'released': obs.get('released')}})
+            stats = {'fired': {'f_raises': 1}, 'out_of_order': 0, 'chunks': 0, 'exception_in_flight': 1, 'deviations': 0, 'chunk_boundary_crossed': 0}
+            return discs, stats, ['hang']
         if obs.get('controller_alive') or obs.get('gate_timeouts'):
             d('I-liveness', 'calls stayed parked / controller did not finish', gate_timeouts=obs.get('gate_timeouts'), deviations=obs['deviations'])
         if raise_at is None:
@@ -325,7 +349,8 @@ class PmapEngine(Engine):
                     d('I-once', f'f called {calls.get(x, 0)} times for element {x}', calls=obs['calls'])
                     break
         else:
-            if obs['error'] is None or obs['error'][0] != 'Boom' or obs['error'][1] != f'boom {raise_at}':
+            en = scn.get('exc', 'Boom')
+            if obs['error'] is None or obs['error'][0] != en or f'boom {raise_at}' not in obs['error'][1]:
                 d('I-exception', 'exception raised by f was not propagated', got=obs['error'], result=obs['result'])
             for x in xs:
                 if calls.get(x, 0) > 1:
